@@ -23,7 +23,7 @@ pattern match across arbitrary text (a '>' in the middle of a title line taken f
 		Run: runLXT,
 	})
 	register(&Rule{
-		ID: "LX-A", Props: []string{"C01", "C02"}, Min: 4,
+		ID: "LX-A", Props: []string{"C01", "C02"}, Min: 3,
 		Doc: `splitter and parsers agree on the sequence alphabet: the byte sets accepted as sequence symbols by the FASTQ splitter (states looking at the sequence line),
 the FASTA parser and the FASTQ parser — obtained by evaluating their guards for all 256 bytes — are equal after case folding and contain the IUPAC letters plus '-', '.', '[',
 ']' (the alphabet the writers emit). A splitter that accepts fewer symbols than the parser cuts a chunk inside a record.`,
